@@ -38,6 +38,16 @@ def h_hull(cx, sp):
         else:
             active.append(idx[1] + sizes[1] * (idx[0] + sizes[0] * idx[2]))
     cx.check('active_count', len(active) == len(set(active)))
+    if obj.pdimension <= 2:
+        # the library's own "active control points" query must name exactly this set (same order: u-major)
+        ops = geo.M('operations')
+        got = ops.find_ctrlpts(obj, *prm)
+        flat = [list(q) for q in got] if obj.pdimension == 1 else [list(q) for row in got for q in row]
+        cx.check('find_ctrlpts_count', len(flat) == len(active), '%d points for %d active' % (len(flat), len(active)))
+        for q, j in zip(flat, active):
+            if len(q) == sp['dim'] + 1:          # rational surfaces hand out homogeneous points
+                q = [x / q[-1] for x in q[:-1]]
+            cx.eq('find_ctrlpts_names_active_set[%d]' % j, q, P[j])
     if not cx.symbolic:
         # float replay: solve nothing, just check the necessary box condition per coordinate
         for d in range(sp['dim']):
@@ -62,7 +72,7 @@ def h_hull(cx, sp):
 
 
 def h_ends(cx, sp):
-    obj, info = shapes.build(cx, sp)
+    obj, info = shapes.build(cx, sp, normalize_kv=False)
     sizes, P = info['sizes'], info['P']
     dom = shapes.domain(obj)
     nd = len(sizes)
@@ -104,10 +114,10 @@ def h_bbox(cx, n, dim, via, nsym=2):
         cx.check('max_attained[%d]' % d, any(cx.holds(hi[d] == P[i][d]) for i in range(n)))
 
 
-def h_length(cx, p, m, ss, upper):
+def h_length(cx, p, m, ss, upper, lo=0, hi=1):
     ops = geo.M('operations')
-    sp = spec('curve', (p,), (m,), rational=False, dim=2)
-    obj, info = shapes.build(cx, sp, normalize_kv=True)
+    sp = spec('curve', (p,), (m,), rational=False, dim=2, lo=lo, hi=hi)
+    obj, info = shapes.build(cx, sp, normalize_kv=(lo == 0 and hi == 1))
     P = info['P']
     obj.sample_size = ss
     L = ops.length_curve(obj)
@@ -137,7 +147,7 @@ def instances(tier):
         out.append(inst('%s ends' % spec_name(sp), h_ends, sp=sp))
         out.append(inst('curve p%d unclamped hull' % p, h_hull, timeout=900,
                         sp=dict(kind='curve', degs=(p,), kvs=[fam.unclamped_uniform(p, p + 3)], dim=2, rational=True, mults=('unclamped',))))
-    surf = [((1, 2), ((1,), ())), ((2, 1), ((), (1,))), ((2, 2), ((1,), (1,)))] + ([] if quick else [((3, 2), ((), (1,)))])
+    surf = [((1, 2), ((1,), ())), ((2, 1), ((), (1,))), ((2, 2), ((1,), (1,))), ((1, 2), ((1, 1), ())), ((1, 1), ((), (1, 1)))] + ([] if quick else [((3, 2), ((), (1,)))])
     for degs, ms in surf:
         for rational in (False, True):
             if rational and sum(degs) > 3:
@@ -149,6 +159,12 @@ def instances(tier):
         sp = spec('volume', degs, ms, rational=rational)
         out.append(inst('%s hull' % spec_name(sp), h_hull, timeout=2400, sp=sp))
         out.append(inst('%s ends' % spec_name(sp), h_ends, timeout=900, sp=sp))
+    for p in (1, 2, 3):
+        sp = spec('curve', (p,), ((1,),), rational=(p != 2), lo=2, hi=5)
+        out.append(inst('%s ends' % spec_name(sp), h_ends, sp=sp))
+    out.append(inst('surface p1,2 dom[2,5] ends', h_ends, timeout=900, sp=spec('surface', (1, 2), ((1,), ()), rational=False, lo=2, hi=5)))
+    out.append(inst('length p2 m() ss3 dom[2,5]', h_length, timeout=1200, p=2, m=(), ss=3, upper=False, lo=2, hi=5))
+    out.append(inst('length p1 m(1,) ss3 dom[2,5] upper', h_length, timeout=1200, p=1, m=(1,), ss=3, upper=True, lo=2, hi=5))
     for n, dim in ((3, 2), (4, 2), (4, 3)) + (() if quick else ((5, 2),)):
         for via in ('function', 'bbox'):
             out.append(inst('bbox n%d dim%d %s' % (n, dim, via), h_bbox, timeout=1200, n=n, dim=dim, via=via))
